@@ -300,8 +300,13 @@ def scenario(rng, pool, n, mode, target, fault):
             s_ = sk.sign(msg).signature
             why += f'; signature {j} is over another message ({alt})'
         elif fault == 'siglen':
-            s_ = rng.choice([s_[:63], s_ + b'\x00', b'', s_[:32]])
-            why += f'; signature {j} has length {len(s_)}'
+            sk = pool.keys[b['idx'][b['signers'][j]]][0]
+            x = rng.randbytes(rng.choice([1, 2, 4, 32, 68]))
+            # S||X where S is the member's GENUINE signature over X||payload: a verifier that lets the length of the
+            # signature field decide where the signed message starts (sig[:64], sig[64:]+payload) would accept it
+            splice = sk.sign(x + payload).signature + x
+            s_ = rng.choice([s_[:63], s_ + b'\x00', b'', s_[:32], splice, splice, s_ + s_])
+            why += f'; signature {j} has length {len(s_)}' + (' (genuine signature over X||payload followed by X)' if s_ is splice else '')
         else:
             fsk = pool.keys[-1 - rng.randrange(20)][0]
             s_ = fsk.sign(payload).signature
